@@ -936,7 +936,10 @@ class Run:
             except Exception as ex:  # the implementation raised on a valid op list
                 import traceback
                 err = {"step": n, "op": op, "error": type(ex).__name__ + ": " + str(ex)[:300], "tb": traceback.format_exc()[-1500:],
-                       "abandoned": op[0] == "Solve" and any(e[1] == "write-reached-live" for e in self.events)}
+                       "abandoned": op[0] == "Solve" and (any(e[1] == "write-reached-live" for e in self.events)
+                                                          # the nonlinear solver gave up on this load path (large load
+                                                          # reversals of the random history): not a statement of C15
+                                                          or any(t in str(ex) for t in ("did not converge", "reduce load steps", "reduce the load step")))}
                 break
         out = {"id": self.case["id"], "sim": self.case["sim"], "fails": self.fails, "events": self.events, "error": err,
                "reg": self.reg, "nfields": len(self.ad.keys), "rates_nonzero": self.rates_nonzero,
